@@ -47,9 +47,9 @@ class StructV:
 
 
 class ArrayV:
-    __slots__ = ('a', 'tag')
-    def __init__(self, a, tag=None):
-        self.a = a; self.tag = tag
+    __slots__ = ('a', 'tag', 'ew')
+    def __init__(self, a, tag=None, ew=None):
+        self.a = a; self.tag = tag; self.ew = ew   # ew: (width, signed) of integer elements when known
     def __repr__(self):
         return 'A%s' % (self.a,)
 
@@ -224,7 +224,7 @@ class Types:
         if k == 'struct':
             return StructV([self.zero(f['type']) for f in u['fields']], tid)
         if k == 'array':
-            return ArrayV([self.zero(u['elem']) for _ in range(u['len'])])
+            return ArrayV([self.zero(u['elem']) for _ in range(u['len'])], ew=self.intinfo(u['elem']))
         if k == 'slice':
             return SliceV(None, 0, 0, 0)
         if k == 'tuple':
@@ -237,7 +237,7 @@ def copyval(v):
     if isinstance(v, StructV):
         return StructV([copyval(x) for x in v.f], v.tid)
     if isinstance(v, ArrayV):
-        return ArrayV([copyval(x) for x in v.a])
+        return ArrayV([copyval(x) for x in v.a], ew=getattr(v, 'ew', None))
     return v
 
 
@@ -276,7 +276,7 @@ class Stats:
     def __init__(self):
         self.instrs = 0; self.paths = 0; self.q_sat = 0; self.q_unsat = 0; self.q_unknown = 0; self.solver_s = 0.0
         self.asserts_proved = 0; self.asserts_failed = 0; self.unsupported = {}; self.unwind = 0; self.queries = []
-        self.reach = {}; self.assumed_away = 0; self.funcs = set()
+        self.reach = {}; self.assumed_away = 0; self.funcs = set(); self.cuts = {}
 
 
 class Interp:
@@ -742,7 +742,7 @@ class Interp:
     def sym_read(self, arr, idx):
         a = arr.a
         if all(isinstance(x, int) or (is_sym(x) and z3.is_bv(x)) for x in a) and a:
-            w = None
+            w = arr.ew[0] if getattr(arr, 'ew', None) else None
             for x in a:
                 if is_sym(x): w = x.size()
             if w is None:
@@ -834,9 +834,17 @@ class Interp:
         s = self.get(regs, i['x'])
         regs[i['r']] = copyval(s.f[i['i']])
 
+    def widen_index(self, idx, i):
+        # index operands may have any integer type: bring symbolic ones to 64 bits by their own signedness
+        if is_sym(idx) and idx.size() != 64:
+            ii = self.T.intinfo(i['yt']) if i.get('yt') is not None else None
+            if idx.size() < 64:
+                idx = z3.SignExt(64 - idx.size(), idx) if (ii and ii[1]) else z3.ZeroExt(64 - idx.size(), idx)
+        return idx
+
     def op_IndexAddr(self, i, regs, fr):
         x = self.get(regs, i['x'])
-        idx = self.get(regs, i['y'])
+        idx = self.widen_index(self.get(regs, i['y']), i)
         k = self.T.kind(i['xt'])
         if k == 'slice':
             if x.arr is None or not self.inrange(idx, x.len):
@@ -866,7 +874,7 @@ class Interp:
 
     def op_Index(self, i, regs, fr):
         x = self.get(regs, i['x'])
-        idx = self.get(regs, i['y'])
+        idx = self.widen_index(self.get(regs, i['y']), i)
         k = self.T.under(i['xt'])
         if k['kind'] == 'array':
             if not self.inrange(idx, len(x.a)):
@@ -1036,7 +1044,7 @@ class Interp:
             self.rt_panic('makeslice: len out of range')
         if ln > 1 << 24:
             raise Unsupported('MakeSlice too large')
-        arr = ArrayV([self.T.zero(elem) for _ in range(cp)])
+        arr = ArrayV([self.T.zero(elem) for _ in range(cp)], ew=self.T.intinfo(elem))
         if self.alloc_log is not None:
             self.alloc_log.append(('slice', ln, arr))
         regs[i['r']] = SliceV(arr, 0, ln, cp)
@@ -1672,7 +1680,7 @@ class Interp:
                 return z3.simplify(z3.fpFPToFP(FP_RM, x, fp_sort(dn)))
             if si and dn in ('string', 'untyped string'):
                 if is_sym(x):
-                    raise Unsupported('string(symbolic rune)')
+                    return self.mkstr(self.encode_rune(x))
                 try:
                     return chr(x).encode('utf-8')
                 except Exception:
@@ -1686,12 +1694,10 @@ class Interp:
             els = [] if x.arr is None else x.arr.a[x.off:x.off + x.len]
             if T.basic(su['elem']) in ('uint8', 'byte'):
                 return self.mkstr(list(els))
-            out = b''
+            out = []
             for r in els:
-                if is_sym(r): raise Unsupported('string([]rune symbolic)')
-                try: out += chr(r).encode('utf-8')
-                except Exception: out += b'\xef\xbf\xbd'
-            return out
+                out.extend(self.encode_rune(r))
+            return self.mkstr(out)
         if sk == 'basic' and dk == 'slice':  # string -> []byte / []rune
             if T.basic(du['elem']) in ('uint8', 'byte'):
                 els = self.str_els(x)
@@ -1706,6 +1712,25 @@ class Interp:
         if sk == dk:
             return x
         raise Unsupported('convert %s -> %s' % (T.str(st), T.str(dt)))
+
+    def encode_rune(self, r):
+        """UTF-8 bytes of a (possibly symbolic) rune; forks on the encoding length"""
+        if not is_sym(r):
+            try:
+                if 0xd800 <= r < 0xe000: raise ValueError
+                return list(chr(r).encode('utf-8'))
+            except Exception:
+                return [0xef, 0xbf, 0xbd]
+        w = r.size()
+        def ex(hi, lo): return z3.Extract(hi, lo, r)
+        k = self.fork([z3.And(r >= 0, r < 0x80), z3.And(r >= 0x80, r < 0x800),
+                       z3.And(r >= 0x800, r < 0x10000, z3.Or(r < 0xd800, r >= 0xe000)), z3.And(r >= 0x10000, r <= 0x10ffff),
+                       z3.Or(r < 0, r > 0x10ffff, z3.And(r >= 0xd800, r < 0xe000))])
+        if k == 0: return [z3.simplify(ex(7, 0))]
+        if k == 1: return [z3.simplify(z3.BitVecVal(0xc0, 8) | z3.ZeroExt(3, ex(10, 6))), z3.simplify(z3.BitVecVal(0x80, 8) | z3.ZeroExt(2, ex(5, 0)))]
+        if k == 2: return [z3.simplify(z3.BitVecVal(0xe0, 8) | z3.ZeroExt(4, ex(15, 12))), z3.simplify(z3.BitVecVal(0x80, 8) | z3.ZeroExt(2, ex(11, 6))), z3.simplify(z3.BitVecVal(0x80, 8) | z3.ZeroExt(2, ex(5, 0)))]
+        if k == 3: return [z3.simplify(z3.BitVecVal(0xf0, 8) | z3.ZeroExt(5, ex(20, 18))), z3.simplify(z3.BitVecVal(0x80, 8) | z3.ZeroExt(2, ex(17, 12))), z3.simplify(z3.BitVecVal(0x80, 8) | z3.ZeroExt(2, ex(11, 6))), z3.simplify(z3.BitVecVal(0x80, 8) | z3.ZeroExt(2, ex(5, 0)))]
+        return [0xef, 0xbf, 0xbd]
 
     def int_conv(self, x, si, di):
         sw, ss = si
